@@ -205,7 +205,13 @@ func genPod(r *rand.Rand, i int) *v1.Pod {
 		p.Spec.Containers = append(p.Spec.Containers, v1.Container{Resources: v1.ResourceRequirements{Requests: genList(r), Limits: genList(r)}})
 	}
 	for c := r.Intn(4); c > 0; c-- {
-		p.Spec.InitContainers = append(p.Spec.InitContainers, v1.Container{Resources: v1.ResourceRequirements{Requests: genList(r)}})
+		ic := v1.Container{Resources: v1.ResourceRequirements{Requests: genList(r)}}
+		if r.Intn(5) == 0 {
+			// a restartable ("sidecar") init container: the definition makes no exception for it
+			always := v1.ContainerRestartPolicyAlways
+			ic.RestartPolicy = &always
+		}
+		p.Spec.InitContainers = append(p.Spec.InitContainers, ic)
 	}
 	if r.Intn(3) == 0 {
 		p.Spec.Overhead = genList(r)
@@ -339,6 +345,12 @@ func runC13(tier string, seed int64, si, sn int, rep *monitor.Report, note func(
 			}
 			if p.DeletionTimestamp != nil {
 				rep.Covered(P, "calc:pod-being-deleted:phase="+string(p.Status.Phase))
+			}
+			for _, ic := range p.Spec.InitContainers {
+				if ic.RestartPolicy != nil && len(ic.Resources.Requests) > 0 {
+					rep.Covered(P, "calc:pod-with-restartable-init-container")
+					break
+				}
 			}
 			if p.Status.Phase != v1.PodRunning && p.Status.Phase != v1.PodPending {
 				rep.Covered(P, "calc:pod-phase="+string(p.Status.Phase))
